@@ -72,7 +72,8 @@ impl BmWorld {
         let id = kv.n("id");
         if kv.op == "b.new" {
             let (size, page) = (kv.us("size"), kv.us("page"));
-            let b = AtomicBitmap::new(size, NonZeroUsize::new(page).unwrap());
+            // (an empty bitmap with 4 KiB pages is what `Default` gives: built that way)
+            let b = if size == 0 && page == 4096 { AtomicBitmap::default() } else { AtomicBitmap::new(size, NonZeroUsize::new(page).unwrap()) };
             let out = format!("ok len={} bs={} w={}", b.len(), b.byte_size(), words(&bm_words(&b)));
             self.sets.insert(id, (BTreeSet::new(), size.div_ceil(page), size, page));
             self.bms.insert(id, b);
@@ -161,9 +162,22 @@ impl BmWorld {
                 "b.sdirty" => {
                     let off = kv.us("off");
                     let mut v = false;
-                    via(&mut |s| { v = s.dirty_at(off); String::new() });
-                    if v != set.contains(&(base.wrapping_add(off) / *page)) {
+                    // `wrap`: the same query through the other `Bitmap` implementations of bitmap/mod.rs — `Some(slice)` answers
+                    // like the slice, `None` and `()` track nothing and answer "clean"
+                    let wrap = kv.s("wrap").to_string();
+                    via(&mut |s| {
+                        v = match wrap.as_str() {
+                            "some" => Some(s.clone()).dirty_at(off),
+                            "none" => { let n: Option<RefSlice<AtomicBitmap>> = None; let _ = s; n.dirty_at(off) }
+                            "unit" => ().dirty_at(off),
+                            _ => s.dirty_at(off),
+                        };
+                        String::new()
+                    });
+                    let want = if wrap == "none" || wrap == "unit" { false } else { set.contains(&(base.wrapping_add(off) / *page)) };
+                    if v != want {
                         rec.fail("C09", "sdirty/set", line);
+                        rec.fail("C05", "sdirty/set", line);
                     }
                     format!("ok {}", v)
                 }
@@ -301,7 +315,7 @@ pub fn run(rec: &mut Rec, rng: &mut Rng, n_random: usize, full_exhaustive: bool)
         rec.cases += 1;
         let size = *rng.pick(&[0usize, 1, 5, 64, 100, 127, 128, 129, 300, 1000, 4096, 4097, 8191]);
         let size = if rng.chance(1, 4) { rng.below(9000) as usize } else { size };
-        let page = if rng.chance(1, 3) { 1 + rng.below(300) as usize } else { *rng.pick(PAGES) };
+        let page = if size == 0 && rng.chance(1, 2) { 4096 } else if rng.chance(1, 3) { 1 + rng.below(300) as usize } else { *rng.pick(PAGES) };
         go(&mut w, rec, format!("b.new id=0 size={} page={}", size, page), true);
         let mut live: Vec<u64> = vec![0];
         let steps = 8 + rng.below(30);
@@ -358,7 +372,14 @@ pub fn run(rec: &mut Rec, rng: &mut Rng, n_random: usize, full_exhaustive: bool)
             } else {
                 let depth = 1 + rng.below(3);
                 let chain: Vec<String> = (0..depth).map(|_| rng.below(bs + 2).to_string()).collect();
-                format!("b.sdirty id={} chain={} off={}", id, chain.join(","), rng.below(bs + 2))
+                // a quarter of the queries go through a chain whose offsets add up past 2^64 and wrap back into the bitmap
+                let mut chain = chain;
+                if rng.chance(1, 4) {
+                    let x = rng.boundary(&[u64::MAX, 1 << 63]).max(1);
+                    chain = vec![x.to_string(), (0u64.wrapping_sub(x)).wrapping_add(rng.below(bs + 2)).to_string()];
+                }
+                let wrap = *rng.pick(&["", "", "", "some", "none", "unit"]);
+                format!("b.sdirty id={} chain={} off={} wrap={}", id, chain.join(","), rng.below(bs + 2), wrap)
             };
             go(&mut w, rec, line, nt);
         }
